@@ -298,7 +298,7 @@ class RealRepo:
                     _, b = self._cat(boid)
                     files[name] = b.decode("utf-8", "replace")
             cells = parse_files(files)
-        m = re.match(r"^x(\d+)\b", msg)
+        m = re.search(r"(?m)^x(\d+)\b", msg)     # the identity tag: first line, or a body line
         info = {"parents": parents, "tree": cells, "meta": int(m.group(1)) if m else 0, "state": state,
                 "msg": msg}
         self.cache[oid] = info
@@ -661,6 +661,13 @@ def run_scenario(stg, driver, unicode_path, steps, oracles=(), tag="h", keep_goi
                         result["oracle_failures"].append({"step": i, "cmd": c, "why": f, "exit": rexit,
                                                           "stderr": stderr[-300:]})
                 d = diff(rc, mc)
+                if d and "Untracked working tree file" in stderr and "would be overwritten" in stderr:
+                    # a refused conflict (--conflicts=disallow / stgit.push.allow-conflicts=false)
+                    # whose work-tree merge left a both-added file behind: git's restoring
+                    # read-tree refuses to overwrite it (DESIGN.md section 10.4, F36; the clean
+                    # model has no untracked files)
+                    result["out_of_model"] = {"step": i, "cmd": c, "stderr": stderr[-200:]}
+                    break
                 if d and "merge-recursive" in stderr and "local changes" in stderr:
                     # merge-recursive refusing to touch locally modified files during the
                     # work-tree merge of a push is outside the model (recorded, not compared);
